@@ -26,7 +26,7 @@ RULE = ("cases: plog models of every class (integer leaves, explicit and generat
 BUDGET = {"quick": (12, 220, 90), "thorough": (16, 2200, 1200)}
 PYTEST = True     # thorough tier also runs the repository's own tests under these monitors
 MANDATORY = ["judged:proposition:structure", "judged:proposition:text", "judged:proposition:queries", "judged:polyhedron:structure",
-             "judged:polyhedron:select", "contract:AtLeast.to_b64", "contract:ge_polyhedron_config.to_b64", "count:with-defaults", "count:xnor-or-imply", "count:derived-by-assume", "count:derived-by-reduce", "count:packed-after-use", "judged:second-unpack-independent-of-first"]
+             "judged:polyhedron:select", "judged:polyhedron:writeable", "contract:AtLeast.to_b64", "contract:ge_polyhedron_config.to_b64", "count:with-defaults", "count:xnor-or-imply", "count:derived-by-assume", "count:derived-by-reduce", "count:packed-after-use", "judged:second-unpack-independent-of-first"]
 
 _n = 0
 
@@ -147,6 +147,23 @@ def poly_post(pre, args, kwargs, result):
         r1 = [(digest.result(a), b, c) for a, b, c in self.select(*[dict(p) for p in prios], solver=confgen.exact_solver_factory({}))]
         r2 = [(digest.result(a), b, c) for a, b, c in back.select(*[dict(p) for p in prios], solver=confgen.exact_solver_factory({}))]
         ctx.check(r1 == r2, "polyhedron:select", lambda: {"recipe": (ctx.case or {}).get("recipe"), "prios": prios, "original": r1, "copy": r2})
+    # "answers every query identically" includes queries that write: the copy must be as writeable as the original, and a solver
+    # that uses the polyhedron as work space (negates it in place and restores it) must work on both
+    ctx.check(bool(numpy.asarray(back).flags.writeable) == bool(numpy.asarray(self).flags.writeable), "polyhedron:writeable",
+              lambda: {"original_writeable": bool(numpy.asarray(self).flags.writeable), "copy_writeable": bool(numpy.asarray(back).flags.writeable)})
+
+    def in_place_solver(poly, objs):
+        numpy.negative(poly, out=poly)
+        numpy.negative(poly, out=poly)
+        return confgen.exact_solver_factory({})(poly, objs)
+    if refmodel.box_size(box, 1 << 12) <= (1 << 12) and numpy.asarray(self).flags.writeable:
+        def ans(P):
+            try:
+                return [(digest.result(a), b, c) for a, b, c in P.select({}, solver=in_place_solver)]
+            except BaseException as e:     # noqa
+                return "exception:" + type(e).__name__
+        a1, a2 = ans(self), ans(back)
+        ctx.check(a1 == a2, "polyhedron:select(in-place solver)", lambda: {"original": repr(a1)[:300], "copy": repr(a2)[:300]})
     ctx.nt(monitor.digest(s1))
     return True
 
@@ -157,6 +174,8 @@ def install(ctx):
 
 
 def gen_case(rng, tier, ctx, i):
+    if tier == "thorough" and i == 1 and ctx.seed % 1000 == 0:
+        return {"big": 7000, "cfg": False}            # nothing in the statement bounds the size of the proposition
     if rng.random() < 0.2:
         from . import polygen
         p = polygen.gen_poly(rng, allow_int16=False, narrow=False)
@@ -178,6 +197,17 @@ def gen_case(rng, tier, ctx, i):
 
 
 def run_case(case, ctx):
+    if "big" in case:
+        n = case["big"]
+        rules = [pg.Imply(pg.All("c%d" % k, "d%d" % k), cc.Xor("x%d" % k, "y%d" % k, default=["x%d" % k])) for k in range(n)]
+        m = cc.StingyConfigurator(*rules, id="big")
+        ctx.count("count:large-model")
+        with monitor.guard():              # the full round-trip monitor (digests, battery) would be too slow on a model of this size
+            s = m.to_b64()
+        back = ctx.call("from_b64", pg.from_b64, s)
+        ctx.check(back.to_text() == m.to_text() and back.id == m.id and len(back.propositions) == n, "proposition:text",
+                  lambda: {"note": "large model (%d rules, b64 length %d)" % (n, len(s))})
+        return
     if "poly" in case:
         from . import polygen
         base = polygen.build_poly(case["poly"])
